@@ -115,6 +115,12 @@ class World:
         # nested defs (closures), not crossing into nested classes
         for sub in self._nested_defs(node):
             self._add_func(m, sub, cls, qual)
+        # lambdas, numbered in ast.walk order of this function (the name the engine gives their closure values)
+        k = 0
+        for n in ast.walk(node):
+            if isinstance(n, ast.Lambda):
+                self.funcs[f"{qual}.<lambda@{k}>"] = FuncInfo(f"{qual}.<lambda@{k}>", m, n, cls, qual, self.path(m))
+                k += 1
 
     def _nested_defs(self, node):
         out = []
